@@ -528,6 +528,13 @@ impl Controller for Ctrl {
         }
     }
 
+    fn observe(&self, tid: usize, event: Event) {
+        let mut g = self.inner.lock().unwrap();
+        if g.record_trace {
+            g.trace.push(TraceEvent { tid, site: event.site, args: event.args });
+        }
+    }
+
     fn register_waiter(&self, tid: usize, slot: usize) {
         let mut g = self.inner.lock().unwrap();
         let entry = g.slots.entry(slot).or_insert((None, false));
